@@ -1046,7 +1046,8 @@ class LinearOperator(object):
 
         :param low_rank_mat: The matrix factor :math:`\mathbf B` to add to :math:`\mathbf A`.
         :param root_decomp_method: How to compute the root decomposition of :math:`\mathbf A`.
-        :param root_inv_decomp_method: How to compute the root inverse decomposition of :math:`\mathbf A`.
+        :param root_inv_decomp_method: Unused. The root inverse decomposition of :math:`\mathbf A` is always
+            obtained by inverting its root decomposition, as the update requires the two to be consistent.
         :param generate_roots: Whether to generate the root decomposition of :math:`\mathbf A` even if it
             has not been created yet.
 
@@ -1058,7 +1059,6 @@ class LinearOperator(object):
         from linear_operator.operators import to_linear_operator
         from linear_operator.operators.root_linear_operator import RootLinearOperator
         from linear_operator.operators.sum_linear_operator import SumLinearOperator
-        from linear_operator.operators.triangular_linear_operator import TriangularLinearOperator
 
         if not isinstance(self, SumLinearOperator):
             new_linear_op = self + to_linear_operator(low_rank_mat.matmul(low_rank_mat.mT))
@@ -1083,10 +1083,10 @@ class LinearOperator(object):
 
         # first get LL^T = A
         current_root = self.root_decomposition(method=root_decomp_method, **root_decomp_kwargs).root
-        return_triangular = isinstance(current_root, TriangularLinearOperator)
 
-        # and MM^T = A^{-1}
-        current_inv_root = self.root_inv_decomposition(method=root_inv_decomp_method).root.mT
+        # and MM^T = A^{-1}; the update below requires M = L^{-1}, so M is obtained from L itself
+        # (a separately computed or cached root_inv_decomposition may stem from a different factorization of A)
+        current_inv_root = _inv_root_from_root(current_root).mT
 
         # compute p = M B and take its SVD
         pvector = current_inv_root.matmul(low_rank_mat)
@@ -1130,10 +1130,7 @@ class LinearOperator(object):
         # finally \tilde{L}^{-1} = L^{-1} U \tilde{S}^{-1}
         updated_inv_root = current_inv_root.mT.matmul(inner_inv_root)
 
-        if return_triangular:
-            updated_root = TriangularLinearOperator(updated_root)
-            updated_inv_root = TriangularLinearOperator(updated_inv_root)
-
+        # NOTE: the updated roots L U \tilde{S} and L^{-T} U \tilde{S}^{-1} are not triangular, even if L is
         add_to_cache(new_linear_op, "root_decomposition", RootLinearOperator(updated_root))
         add_to_cache(new_linear_op, "root_inv_decomposition", RootLinearOperator(updated_inv_root))
 
@@ -1266,7 +1263,9 @@ class LinearOperator(object):
         # Get components for new root Z = [E 0; F G]
         E = self.root_decomposition(**root_decomp_kwargs).root  # E = L, LL^T = A
         m, n = E.shape[-2:]
-        R = self.root_inv_decomposition().root.to_dense()  # RR^T = A^{-1} (this is fast if L is triangular)
+        # RR^T = A^{-1}; F = BR requires R = E^{-T}, so R is obtained from E itself (a cached or default
+        # root_inv_decomposition may stem from a different factorization); this is fast if E is triangular
+        R = _inv_root_from_root(E).to_dense()
         lower_left = B_ @ R  # F = BR
         schur = D - lower_left.matmul(lower_left.mT)  # GG^T = new_mat - FF^T
         schur_root = to_linear_operator(schur).root_decomposition().root  # G = (new_mat - FF^T)^{1/2}
@@ -2971,6 +2970,27 @@ class LinearOperator(object):
 
     def __truediv__(self, other: Union[torch.Tensor, float]) -> LinearOperator:
         return self.div(other)
+
+
+def _inv_root_from_root(
+    root: Union[Float[Tensor, "... N M"], Float[LinearOperator, "... N M"]]
+) -> Float[LinearOperator, "... N M"]:
+    r"""
+    Given a root :math:`\mathbf L` (with :math:`\mathbf A = \mathbf{LL}^\top`), returns
+    :math:`\mathbf R = \mathbf L^{-\top}` (the transposed pseudo-inverse if :math:`\mathbf L` is not square),
+    i.e. the inverse root (:math:`\mathbf A^{-1} = \mathbf{RR}^\top`) that is consistent with :math:`\mathbf L`.
+    """
+    from linear_operator.operators.dense_linear_operator import to_linear_operator
+    from linear_operator.operators.triangular_linear_operator import TriangularLinearOperator
+
+    if isinstance(root, TriangularLinearOperator):
+        # inverting a triangular root is a simple triangular solve against the identity
+        dense_root = to_dense(root)
+        eye = torch.eye(dense_root.size(-1), device=dense_root.device, dtype=dense_root.dtype)
+        upper = getattr(root, "upper", False)  # e.g. diagonal roots do not carry this attribute
+        inv = torch.linalg.solve_triangular(dense_root, eye, upper=upper)
+        return TriangularLinearOperator(inv.mT, upper=not upper)
+    return to_linear_operator(stable_pinverse(to_dense(root)).mT)
 
 
 def _scale_columns(
